@@ -92,7 +92,7 @@ func C01(p *core.Prog, r *core.Report) {
 	// ---- writer side
 	type wlabel struct {
 		strConst
-		lead, pad int
+		lead, pad  int
 		name, rest string
 	}
 	var wl []wlabel
